@@ -31,7 +31,7 @@ def annotate(script_lines, impl_blocks):
         t = line.split()
         if not t or line.startswith("#"):
             continue
-        if t[0] == "part":
+        if t[0] in ("part", "authz"):
             continue
         block = impl_blocks[bi] if bi < len(impl_blocks) else []
         bi += 1
@@ -44,6 +44,9 @@ def annotate(script_lines, impl_blocks):
                     body = f[-1][len("body="):]
                     ents = [] if body == "-" else [x.split(":")[0] for x in body.split(";")]
                     per.setdefault(slot, []).append(ents)
+            for l in block:
+                if l.startswith("authorized "):
+                    out.append("authz %s" % l.split()[1])
             for slot, msgs in sorted(per.items()):
                 if len(msgs) == 1 and not msgs[0]:
                     out.append("part %s -" % slot)
@@ -58,11 +61,22 @@ def run_model(annotated_lines, timeout=1800):
     return split_steps(out)
 
 
+HANDSHAKE = re.compile(r"^(cevt \d+ PHASH|evt \d+ PMISMATCH|authorized \d+|disconnect-request \S+)$")
+
+
 def run_both(script_lines):
-    steps = [l for l in script_lines if l.split() and not l.startswith("#") and l.split()[0] != "part"]
-    impl = run_impl(steps)
-    model = run_model(annotate(steps, impl))
+    """Returns (steps, impl blocks for comparison, model blocks). Lines of the protocol-check handshake are outside the
+    model; they are kept in `raw_impl` (4th result of run_both_raw) for the oracles."""
+    steps, impl, model, _ = run_both_raw(script_lines)
     return steps, impl, model
+
+
+def run_both_raw(script_lines):
+    steps = [l for l in script_lines if l.split() and not l.startswith("#") and l.split()[0] not in ("part", "authz")]
+    raw = run_impl(steps)
+    model = run_model(annotate(steps, raw))
+    impl = [[l for l in b if not HANDSHAKE.match(l)] for b in raw]
+    return steps, impl, model, raw
 
 
 def first_divergence(steps, impl, model):
